@@ -444,8 +444,10 @@ def r4(ctx: Ctx) -> None:
     # regions reported unchanged: Die.__init__ distributes the parsed objects themselves and nothing edits them
     init = ctx.func(DIE, "Die.__init__")
     ci = canon_function(init, ctx.model)
+    from framelint.canon import single_defs, deref
+    defs_ = single_defs(ci)
     ctx.site(init.where, "parsed regions are stored as they are (blockage tag -> blockages, else specialised)")
-    loops = [st for st in ci if st[0] == "for" and contains(st[2], ("g", "parse_yaml_die"))]
+    loops = [st for st in ci if st[0] == "for" and contains(deref(st[2], defs_), ("g", "parse_yaml_die"))]
     ok = False
     if len(loops) == 1:
         v = loops[0][1]
